@@ -10,9 +10,10 @@ LeafRec(type, tlen, maxDef, maxRep, path) == [type |-> type, tlen |-> tlen, maxD
 Tk(type, tlen, k) == TokenAt(type, tlen, k)
 
 \* ---- table 1: flat, all eight physical types, REQUIRED / OPTIONAL alternating, 5 rows
-T1Elems == << Root(8), Leaf(<<98>>, 0, 0, 0), Leaf(<<105>>, 1, 1, 0), Leaf(<<108>>, 2, 0, 0), Leaf(<<110>>, 3, 1, 0),
+\* (the first column's name "xb" has the last column's name "x" as a proper prefix: name lookups must be exact)
+T1Elems == << Root(8), Leaf(<<120, 98>>, 0, 0, 0), Leaf(<<105>>, 1, 1, 0), Leaf(<<108>>, 2, 0, 0), Leaf(<<110>>, 3, 1, 0),
               Leaf(<<102>>, 4, 0, 0), Leaf(<<100>>, 5, 1, 0), Leaf(<<115>>, 6, 1, 0), Leaf(<<120>>, 7, 0, 3) >>
-T1Leaves == << LeafRec(0, 0, 0, 0, <<<<98>>>>), LeafRec(1, 0, 1, 0, <<<<105>>>>), LeafRec(2, 0, 0, 0, <<<<108>>>>),
+T1Leaves == << LeafRec(0, 0, 0, 0, <<<<120, 98>>>>), LeafRec(1, 0, 1, 0, <<<<105>>>>), LeafRec(2, 0, 0, 0, <<<<108>>>>),
                LeafRec(3, 0, 1, 0, <<<<110>>>>), LeafRec(4, 0, 0, 0, <<<<102>>>>), LeafRec(5, 0, 1, 0, <<<<100>>>>),
                LeafRec(6, 0, 1, 0, <<<<115>>>>), LeafRec(7, 3, 0, 0, <<<<120>>>>) >>
 T1Defs(c) == IF T1Leaves[c].maxDef = 0 THEN <<0, 0, 0, 0, 0>>
@@ -54,8 +55,8 @@ T4Cont(c, g) == IF c = 1 THEN [defs |-> <<2, 1, 0>>, reps |-> <<0, 0, 0>>, vals 
 \* ---- table 5: long columns (LongRows rows): definition levels in runs of many lengths (beat of two periods), a
 \* REQUIRED INT32 column with 300 distinct values (dictionary index width 9), OPTIONAL BYTE_ARRAY / DOUBLE / BOOLEAN
 LongRows == 600
-T5Elems == << Root(4), Leaf(<<97>>, 1, 0, 0), Leaf(<<115>>, 6, 1, 0), Leaf(<<100>>, 5, 1, 0), Leaf(<<98>>, 0, 1, 0) >>
-T5Leaves == << LeafRec(1, 0, 0, 0, <<<<97>>>>), LeafRec(6, 0, 1, 0, <<<<115>>>>), LeafRec(5, 0, 1, 0, <<<<100>>>>), LeafRec(0, 0, 1, 0, <<<<98>>>>) >>
+T5Elems == << Root(4), Leaf(<<98, 120>>, 1, 0, 0), Leaf(<<115>>, 6, 1, 0), Leaf(<<100>>, 5, 1, 0), Leaf(<<98>>, 0, 1, 0) >>
+T5Leaves == << LeafRec(1, 0, 0, 0, <<<<98, 120>>>>), LeafRec(6, 0, 1, 0, <<<<115>>>>), LeafRec(5, 0, 1, 0, <<<<100>>>>), LeafRec(0, 0, 1, 0, <<<<98>>>>) >>
 Beat(i, l1, l2) == (((i - 1) \div l1) + ((i - 1) \div l2)) % 2
 T5Defs(c) == [i \in 1..LongRows |-> CASE c = 1 -> 0 [] c = 2 -> Beat(i, 7, 64) [] c = 3 -> Beat(i, 1, 9) [] c = 4 -> Beat(i, 63, 100)]
 T5Cont(c, g) == LET defs == T5Defs(c)
